@@ -19,7 +19,7 @@ RULE = ('seeded generator: pupils (even and odd, <= grid) with FFT grids 6..48 p
 ASSUMPTIONS = ['both axes imply one propagation wavelength (isotropic dx*du, or commensurate anisotropic)',
                'pupil no larger than the FFT grid (the regime the FFT propagator supports)']
 PLAN = {'quick': {'gen': 8}, 'thorough': {'gen': 16, 'tests': 1, 'docs': 1}}
-REQUIRED_BUCKETS = ['defaults', 'scratch_shape:band', 'tilted:how=3', 'tilted:how=4', 'grid:even', 'grid:odd', 'pupil:even', 'pupil:odd', 'pupil-parity!=grid-parity', 'os=1', 'os=2', 'os=3',
+REQUIRED_BUCKETS = ['defaults', 'reuse', 'scratch_shape:band', 'tilted:how=3', 'tilted:how=4', 'grid:even', 'grid:odd', 'pupil:even', 'pupil:odd', 'pupil-parity!=grid-parity', 'os=1', 'os=2', 'os=3',
                     'shape:none', 'shape:explicit', 'aniso', 'scratch:exact', 'scratch:larger', 'scratch:dirty',
                     'scratch:too-small', 'shape:too-large', 'tilted', 'dir:image->pupil', 'segmented', 'segmented:bbox-overlap', 'scratch:non-finite', 'canvas', 'shape:small-int', 'scalars:float32']
 REQUIRED_ANCHORS = ['anchor:_fft_shape', 'anchor:_fft2', 'anchor:_has_tilt', 'anchor:scratch_shape', 'probe:propagate_fft',
